@@ -119,6 +119,20 @@ def gen_client_ops(rng, thorough=False):
     scs.append({"id": len(scs), "kind": "client_ops", "queue": 16, "steps": steps, "tag": "c18-list-reuse"})
     for n in ((1, 2, 7, 16) if thorough else (1, 3)):
         scs.append({"id": len(scs), "kind": "client_queue", "queue": n, "steps": [], "tag": f"c18-queue-depth-{n}"})
+    # RTU channel and RTU server through the C ABI: every enumerator of every serial setting (thorough: all combinations)
+    import itertools
+    allc = list(itertools.product(["Five", "Six", "Seven", "Eight"], ["None", "Software", "Hardware"], ["None", "Odd", "Even"], ["One", "Two"]))
+    if not thorough:
+        # every enumerator at least once per role, plus two random combinations
+        allc = [("Five", "None", "None", "One"), ("Six", "Software", "Odd", "Two"), ("Seven", "Hardware", "Even", "One"),
+                ("Eight", "None", "Odd", "One")] + [rng.choice(allc) for _ in range(2)]
+    steps = []
+    for i, (db, fl, pa, sb) in enumerate(allc):
+        for role in (("client", "server") if (not thorough or i % 3 == 0) else (("client",) if i % 3 == 1 else ("server",))):
+            cfg = {"path": f"/dev/ttyVERIF{i}", "baud": rng.choice([1200, 9600, 19200, 115200, 4000000]), "data_bits": db, "flow": fl,
+                   "parity": pa, "stop": sb, "unit": rng.choice([1, 17, 247])}
+            steps.append({"op": role, "peer": json.dumps(cfg)})
+    scs.append({"id": len(scs), "kind": "rtu_cabi", "queue": 1, "steps": steps, "tag": "c18-rtu-through-the-c-abi"})
     # decode levels: every level of each component (thorough: all 36 combinations), given at creation and set at run time
     if thorough:
         lv = [[a, f, p] for a in range(4) for f in range(3) for p in range(3)]
